@@ -250,7 +250,7 @@ def r_cascade(c):
     fd = _raiser(m)
     casc = m.func(CASCADE)
     accepted = set()
-    for t in ast.walk(casc):
+    for t in m.walk_scope(casc):       # the cascade may sit in a per-element helper
         if isinstance(t, ast.Call) and ast.unparse(t.func) == "isinstance" \
                 and isinstance(t.args[0], ast.Name):
             accepted |= set(_prim_names(t.args[1]))
@@ -518,8 +518,10 @@ def r_patterns(c):
     bn, osn = a.args.args[1].arg, a.args.args[2].arg
     tbl = find(a, f"$t = {{$k: p.Subscript(p.Variable($k), get_indexing_expression($b.shape, {osn}))"
                   f" for $k, $b in {bn}.items()}}")
-    c.check(len(tbl) == 1 and (has(a, f"{tbl[0]['$t']}[$e.aggregate.name] == $e")
-                               or has(a, f"$e == {tbl[0]['$t']}[$e.aggregate.name]")),
+    # (the comparison is in the cascade or in a private helper that is handed the table)
+    c.check(len(tbl) == 1 and any(has(f, f"{t}[$e.aggregate.name] == $e")
+                                  or has(f, f"$e == {t}[$e.aggregate.name]")
+                                  for f, t in m.handed_to(a, tbl[0]['$t'])),
             "R19-PATTERN",
             "_as_array_or_scalar", "operand-only-through-exact-broadcast-subscript",
             m.loc(m.module_of(a), a),
